@@ -31,20 +31,21 @@ Blob == Cell("blob", "-")
 B(val, ty, c) == [val |-> val, ty |-> ty, canon |-> c]
 Enc(val, ty) == B(val, ty, TRUE)
 
-VARIABLES kind, raw, lazyType, lz, typeName, dcell, gen, nops, op
+VARIABLES kind, raw, lazyType, lz, typeName, dcell, gen, nops, op, moved
 \* kind      what the loaded type name is to this API
 \* raw       bytes the table was loaded with (this generation)
 \* lazyType  type name it was loaded with
 \* lz        the lazy container is still attached (data never read, never assigned)
 \* typeName  current type_name
 \* dcell     NoCell | Cell("val", v) | Blob     the _data cell
-vars == <<kind, raw, lazyType, lz, typeName, dcell, gen, nops, op>>
-view == <<kind, raw, lazyType, lz, typeName, dcell, gen>>
+\* moved     the holder of the table changed hands since the table was loaded
+vars == <<kind, raw, lazyType, lz, typeName, dcell, gen, nops, op, moved>>
+view == <<kind, raw, lazyType, lz, typeName, dcell, gen, moved>>
 
 Init == /\ kind \in Kinds
         /\ raw \in {B("v0", "T0", TRUE), B("v0", "T0", FALSE)}
         /\ lazyType = "T0" /\ lz = TRUE /\ typeName = "T0" /\ dcell = NoCell
-        /\ gen = 1 /\ nops = 0 /\ op = [name |-> "load", kind |-> kind, canon |-> raw.canon]
+        /\ gen = 1 /\ nops = 0 /\ op = [name |-> "load", kind |-> kind, canon |-> raw.canon] /\ moved = FALSE
 
 Unknown == kind # "known"
 \* what decoding raw (under the type it was loaded with) yields
@@ -80,27 +81,30 @@ NeverStale == (~Unknown /\ Touched /\ (CurVal # raw.val \/ typeName # raw.ty)) =
 
 Step(o) == nops < MaxOps /\ nops' = nops + 1 /\ op' = o
 Read == /\ Step([name |-> "read"]) /\ lz' = FALSE /\ dcell' = DataAfterGet
-        /\ UNCHANGED <<kind, raw, lazyType, typeName, gen>>
+        /\ UNCHANGED <<kind, raw, lazyType, typeName, gen, moved>>
 Mutate == /\ DataAfterGet # Blob /\ ~Unknown
           /\ Step([name |-> "mutate"]) /\ lz' = FALSE /\ dcell' = Cell("val", "vm")
-          /\ UNCHANGED <<kind, raw, lazyType, typeName, gen>>
+          /\ UNCHANGED <<kind, raw, lazyType, typeName, gen, moved>>
 AssignData == /\ ~Unknown /\ Step([name |-> "assign"]) /\ lz' = FALSE /\ dcell' = Cell("val", "vn")
-              /\ UNCHANGED <<kind, raw, lazyType, typeName, gen>>
+              /\ UNCHANGED <<kind, raw, lazyType, typeName, gen, moved>>
 AssignType(t) == /\ ~Unknown /\ t # typeName /\ Step([name |-> "settype", t |-> t]) /\ typeName' = t
-                 /\ UNCHANGED <<kind, raw, lazyType, lz, dcell, gen>>
+                 /\ UNCHANGED <<kind, raw, lazyType, lz, dcell, gen, moved>>
 Save == /\ Step([name |-> "save", out |-> Req])
         /\ IF SaveTouches THEN lz' = FALSE /\ dcell' = DataAfterGet ELSE UNCHANGED <<lz, dcell>>
-        /\ UNCHANGED <<kind, raw, lazyType, typeName, gen>>
+        /\ UNCHANGED <<kind, raw, lazyType, typeName, gen, moved>>
 Reload == /\ gen < MaxGen /\ Req.bytes # ANY
           /\ Step([name |-> "reload", out |-> Req])
-          /\ raw' = Req.bytes /\ lazyType' = typeName /\ lz' = TRUE /\ dcell' = NoCell /\ gen' = gen + 1
+          /\ raw' = Req.bytes /\ lazyType' = typeName /\ lz' = TRUE /\ dcell' = NoCell /\ gen' = gen + 1 /\ moved' = FALSE
           /\ UNCHANGED <<kind, typeName>>
-Next == Read \/ Mutate \/ AssignData \/ (\E t \in Types : AssignType(t)) \/ Save \/ Reload
+\* the node that holds the table changes hands (a module moved to another IR): nothing about the table changes
+Move == /\ ~moved /\ Step([name |-> "move"]) /\ moved' = TRUE
+        /\ UNCHANGED <<kind, raw, lazyType, lz, typeName, dcell, gen>>
+Next == Read \/ Mutate \/ AssignData \/ (\E t \in Types : AssignType(t)) \/ Save \/ Reload \/ Move
 Spec == Init /\ [][Next]_vars
 Emit == PrintT(ToJson([pre |-> [kind |-> kind, raw |-> raw, lazyType |-> lazyType, lz |-> lz, typeName |-> typeName,
-                                dcell |-> dcell, gen |-> gen, nops |-> nops],
+                                dcell |-> dcell, gen |-> gen, nops |-> nops, moved |-> moved],
                        op |-> op',
                        post |-> [kind |-> kind', raw |-> raw', lazyType |-> lazyType', lz |-> lz', typeName |-> typeName',
-                                 dcell |-> dcell', gen |-> gen', nops |-> nops'],
+                                 dcell |-> dcell', gen |-> gen', nops |-> nops', moved |-> moved'],
                        lvl |-> TLCGet("level")]))
 =============================================================================
